@@ -2,6 +2,7 @@ package main
 
 import (
 	"fmt"
+	"golang.org/x/tools/go/ssa"
 	"math/big"
 )
 
@@ -335,6 +336,14 @@ func runC04(p *Program, r *Report) {
 	checkQuantisers(p, sub, "C04.stage-C02")
 	checkTableAgreement(p, sub, "C04.stage-C02")
 	checkNoRawConversion(p, sub, "C04.stage-C02")
+	// the stages are functions of their arguments only: building an adaptation or
+	// converting a colour leaves package-level constants and operands untouched, so
+	// the pairing facts hold for every call, not just the first in a process
+	pure := []*ssa.Function{p.Func("ciexyz", "AdaptBetweenXYZWhitePoints"), p.Func("ciexyz", "AdaptBetweenXYYWhitePoints"), p.Method("ciexyz", "ChromaticAdaptation", "Apply")}
+	for _, sp := range allSpaces {
+		pure = append(pure, p.Method(sp, "Color", "ToXYZ"), p.Func(sp, "ColorFromXYZ"))
+	}
+	checkPure(p, sub, "C04.stage-pure", pure)
 	for _, ob := range sub.Obls {
 		r.Obls = append(r.Obls, ob)
 	}
